@@ -50,12 +50,22 @@ func Reconcile(asset string, senders []Sender, receivers []Receiver) ([]Posting,
 		if receiver.Name == KEPT_ADDR {
 			sender, empty := popStack(&senders)
 			if !empty {
-				var newMon big.Int
-				newMon.Sub(sender.Monetary, receiver.Monetary)
-				senders = append(senders, Sender{
-					Name:     sender.Name,
-					Monetary: &newMon,
-				})
+				switch sender.Monetary.Cmp(receiver.Monetary) {
+				case 1: /* sender.Monetary > kept: the rest of this sender is still available */
+					var newMon big.Int
+					newMon.Sub(sender.Monetary, receiver.Monetary)
+					senders = append(senders, Sender{
+						Name:     sender.Name,
+						Monetary: &newMon,
+					})
+				case -1: /* sender.Monetary < kept: the rest is kept from the next senders */
+					var newMon big.Int
+					newMon.Sub(receiver.Monetary, sender.Monetary)
+					receivers = append(receivers, Receiver{
+						Name:     receiver.Name,
+						Monetary: &newMon,
+					})
+				}
 			}
 			continue
 		}
